@@ -576,8 +576,10 @@ BTree_ShouldSuppressKeyError()
 static int tree_op_depth = 0;
 static PyObject *tree_op_dead = NULL;   /* list of parked objects, or NULL */
 
+#if defined(KEY_TYPE_IS_PYOBJECT) || defined(VALUE_TYPE_IS_PYOBJECT)
 /* Release `o` (a reference we own; NULL is allowed), later if a tree
- * operation is in progress, else now. */
+ * operation is in progress, else now.  (Families whose keys and values are
+ * both native never release an object.) */
 static void
 release_after_tree_op(PyObject *o)
 {
@@ -604,6 +606,7 @@ release_after_tree_op(PyObject *o)
     }
     Py_DECREF(o);
 }
+#endif
 
 #define TREE_OP_ENTER() (tree_op_depth++)
 
